@@ -183,6 +183,11 @@ func (w *concWorld) restart(crash bool) {
 	w.s.Direct(func() {
 		old := w.inst
 		dir := old.Cfg.Dir
+		if w.twin != nil {
+			w.twin.Dead = crash
+			w.twin.Close()
+			w.twin = nil
+		}
 		if crash {
 			nd := NewRunDir(w.t)
 			if err := CopyDir(dir, nd); err != nil {
@@ -194,10 +199,20 @@ func (w *concWorld) restart(crash bool) {
 		} else {
 			w.rc.Stats.Inc("clean_restarts", 1)
 		}
+		w.s.AbortBackground(old)
 		old.Close()
 		cfg := old.Cfg
 		cfg.Dir = dir
-		inst, err := NewInstance(w.s, fmt.Sprintf("i%d", w.incarnation+1), cfg)
+		cfg.PeriodicPruning = w.pruning
+		inst, err := BootInstance(w.s, fmt.Sprintf("i%d", w.incarnation+1), cfg)
+		if err != nil && w.shared {
+			// Two stores wrote the same files: what that did to them is beside the property (nothing is released by a
+			// daemon that does not start); the history ends here.
+			w.rc.Stats.Inc("reopen_failed_after_two_instances_shared_the_directory", 1)
+			w.rc.Logf("restart: open failed after a shared directory: %v", err)
+			w.stuck = true
+			return
+		}
 		if err != nil {
 			w.rc.Stats.Inc("restart_open_failed", 1)
 			w.rc.Logf("restart: open failed: %v", err)
@@ -225,6 +240,7 @@ func runHist(t *testing.T, rc *RunCtx, prop string) {
 	concurrent := ch.Pick(2, 0) == 1
 	restartMode := ch.Pick(3, 0)
 	big := ch.Pick(3, 0) > 0
+	overlap := !concurrent && ch.Pick(3, 0) == 2
 	var w *concWorld
 	cfg := SchedCfg{StayBias: []float64{0, 0.5, 0.8}[ch.Pick(3, 0)], MaxSteps: 1 << 20}
 	// In a third of the concurrent histories clients may abandon requests in flight.
@@ -247,6 +263,9 @@ func runHist(t *testing.T, rc *RunCtx, prop string) {
 	}
 	w = newW1(t, rc, cfg, nil)
 	w.abandon = abandon
+	// Half of the histories: incarnations after the first run with the storage housekeeping switched on; whatever
+	// goroutine that starts is one more thread of the schedule.
+	w.pruning = ch.Pick(2, 0) == 1
 	defer func() { w.close() }()
 	g := &histGen{rc: rc, ledger: w.ledger, pop: w.pop, nKeys: nKeys, big: big}
 	var desc []string
@@ -287,11 +306,45 @@ func runHist(t *testing.T, rc *RunCtx, prop string) {
 			done += k
 		} else {
 			o := g.op(prop)
+			// Now and then a batch also carries an entry whose domain is shorter than a domain type, in a
+			// slice of exactly that capacity (a caller inside the process; the wire decoder never produces
+			// one). Where that ends the request in a panic the daemon is dead: nothing of the batch may have
+			// been released, and the next incarnation starts from what is on disk.
+			poison := prop == "C01" && ch.Pick(8, 0) == 7
+			if poison {
+				bad := g.attEntry(ch.Pick(g.nKeys, 0))
+				bad.Domain = make([]byte, 1+ch.Pick(3, 0))
+				bad.Domain[0] = byte(ch.Pick(3, 0))
+				o = &Op{Kind: "atts", Client: "client1", Entries: append(append([]Entry{}, o.Entries...), bad)}
+				rc.Stats.Inc("probe_batch_with_short_domain_entry", 1)
+			}
 			desc = append(desc, o.String())
+			target := w.inst
+			if w.twin != nil && ch.Pick(2, 0) == 1 {
+				target = w.twin
+				desc = append(desc, "@twin")
+			}
 			var r *OpResult
-			w.s.Direct(func() { r = o.Exec(w.inst) })
+			w.s.Direct(func() { r = o.Exec(target) })
 			rc.Logf("op%d %s -> %v", done, o, r.States)
-			Monitor(rc, w.ledger, w.pop, o, r, done, true)
+			if poison && r.Panic != "" {
+				rc.Stats.Inc("daemon_died_on_short_domain", 1)
+				w.restart(true)
+				desc = append(desc, "DIED")
+			} else {
+				if poison {
+					// The malformed entry itself is outside the property; the others are judged as usual.
+					n := len(o.Entries) - 1
+					o = &Op{Kind: o.Kind, Client: o.Client, Entries: o.Entries[:n]}
+					if len(r.States) > n {
+						r.States = r.States[:n]
+					}
+					if len(r.Sigs) > n {
+						r.Sigs = r.Sigs[:n]
+					}
+				}
+				Monitor(rc, w.ledger, w.pop, o, r, done, true)
+			}
 			done++
 		}
 		if restartMode > 0 && ch.Pick(6, 0) == 5 {
@@ -299,7 +352,21 @@ func runHist(t *testing.T, rc *RunCtx, prop string) {
 			w.restart(crash)
 			desc = append(desc, map[bool]string{true: "CRASH-RESTART", false: "RESTART"}[crash])
 		}
-		if len(rc.Viol) > 0 {
+		// An operator starts the replacement instance on the same storage directory while the old one still
+		// serves. Whether the newcomer is refused or let in, the key's history stays one.
+		if overlap && !w.stuck && w.twin == nil && ch.Pick(5, 0) == 4 {
+			w.s.Direct(func() {
+				tw, err := NewInstance(w.s, fmt.Sprintf("twin%d", w.incarnation), w.inst.Cfg)
+				if err != nil {
+					rc.Stats.Inc("second_instance_on_same_directory_refused", 1)
+					return
+				}
+				rc.Stats.Inc("second_instance_on_same_directory_started", 1)
+				w.twin, w.shared = tw, true
+			})
+			desc = append(desc, "SECOND-INSTANCE")
+		}
+		if len(rc.Viol) > 0 || w.stuck {
 			break
 		}
 	}
